@@ -6,11 +6,13 @@ Rec == ndJsonDeserialize(IOEnv.TRACE)
 VARIABLES v_pos, v_pairs
 vars == <<v_pos, v_pairs>>
 Chk(c, m) == IF c THEN TRUE ELSE PrintT(<<"MISMATCH", m>>) /\ FALSE
+\* what the property demands of a paired borrow <<data length, symbol count, symbol size, dest offset, src offset>>: two
+\* different, in-bounds, non-overlapping ranges of one symbol each (nothing about alignment or about the storage being
+\* exactly count * size octets: a slab may pad its symbols)
 PairDisjoint(p) ==
   LET dl == p[1] cnt == p[2] ss == p[3] d == p[4] s == p[5] IN
-  /\ dl = cnt * ss
+  /\ dl >= cnt * ss
   /\ d # s
-  /\ d % ss = 0 /\ s % ss = 0
   /\ d + ss <= dl /\ s + ss <= dl
   /\ (d + ss <= s \/ s + ss <= d)
 PairsOk(e) == \A i \in 1..Len(e.pairs) : Chk(PairDisjoint(e.pairs[i]), <<"paired borrow overlaps or leaves the slab", e.pairs[i]>>)
@@ -19,10 +21,12 @@ PairsOk(e) == \A i \in 1..Len(e.pairs) : Chk(PairDisjoint(e.pairs[i]), <<"paired
 \* two whole, distinct, in-bounds, non-overlapping symbols (WHICH physical symbols is the slab's business: a reorder may
 \* be a mapping or a physical permutation) - and refused (panic, nothing handed out) otherwise.
 SlicesOk(e, c) ==
-  LET d == c.ret[1] dl == c.ret[2] s == c.ret[3] sl == c.ret[4] total == e.count * e.ss IN
+  LET d == c.ret[1] dl == c.ret[2] s == c.ret[3] sl == c.ret[4]
+      \* the storage length the slab itself reported for this call (hook), else the minimum a slab of that shape has
+      total == IF Len(c.hook) > 0 THEN c.hook[1][1] ELSE e.count * e.ss IN
   /\ dl = e.ss /\ sl = e.ss
-  /\ d >= 0 /\ s >= 0 /\ d % e.ss = 0 /\ s % e.ss = 0
-  /\ d + e.ss <= total /\ s + e.ss <= total
+  /\ d >= 0 /\ s >= 0
+  /\ (Len(c.hook) > 0 => d + e.ss <= total /\ s + e.ss <= total)
   /\ (d + e.ss <= s \/ s + e.ss <= d)
 DirectOk(e) ==
   \A i \in 1..Len(e.calls) :
